@@ -373,8 +373,10 @@ def replay(ov, prop, item, extra, timeout=900, native=True):
     path = os.path.join(outdir, uniq + ".rs")
     cmd = ["cargo", "kani", "--harness", h, "--exact", "-Z", "concrete-playback", "--concrete-playback=print"] + extra
     try:
-        # concrete playback reads the counterexample values from CBMC's trace: this run is not filtered
-        _rc, gen_out = run_group(cmd, ov, dict(ENV, VERIF_CBMC_FILTER=""), timeout if native else min(timeout, 300))
+        # concrete playback reads the values of the `kani::any()` inputs from CBMC's trace: the filter keeps the traces
+        # in this run but prunes them to the steps inside `kani::any_raw_*` (VERIF_PLAYBACK_UNFILTERED=1: no filter)
+        penv = dict(ENV, VERIF_CBMC_FILTER="") if os.environ.get("VERIF_PLAYBACK_UNFILTERED") else dict(ENV, VERIF_CBMC_FILTER_MODE="playback")
+        _rc, gen_out = run_group(cmd, ov, penv, timeout if native else min(timeout, 300))
     except subprocess.TimeoutExpired:
         if not native:
             # CBMC-only harness: the verdict is the solver's (the obligation's cover came back SATISFIED in the
